@@ -202,6 +202,16 @@ func (u *Upstream) waitToSendAllDataPointsAndReceiveAllAck(ctx context.Context) 
 	// issued one" says nothing about earlier chunks, so there is no shortcut here - the loop below
 	// returns at once when the sent storage holds no unacknowledged chunk of this stream.
 
+	// Only an arriving ack signals receivedAck: wake the wait below when one of its bounds
+	// (the caller's context, the stream's close timeout) expires, or it would never be re-checked.
+	wake := func() {
+		u.receivedAck.L.Lock()
+		u.receivedAck.Broadcast()
+		u.receivedAck.L.Unlock()
+	}
+	defer context.AfterFunc(ctx, wake)()
+	defer context.AfterFunc(parentCtx, wake)()
+
 	u.receivedAck.L.Lock()
 	var err error
 	var remaining map[uint32]DataPointGroups
